@@ -294,14 +294,27 @@ fn worker_run(ctx: &Ctx, cases: &[(Case, u64)], shard: usize, nshards: usize) ->
         let lim = libc::rlimit { rlim_cur: 6 << 30, rlim_max: 6 << 30 };
         libc::setrlimit(libc::RLIMIT_AS, &lim);
     }
-    let out = std::io::stdout();
-    let mut out = out.lock();
+    let mut out = std::io::stdout();
     let mut stats = Stats::default();
     let mut n = 0u64;
+    // a case whose search does not come back within 40 s (on the unchanged tree the slowest takes a
+    // fraction of a second) is a hang inside the library: a spinning thread cannot be stopped, so the
+    // process gives itself up; the parent takes the announced case as the verdict
+    let beat = std::sync::Arc::new(std::sync::Mutex::new(std::time::Instant::now()));
+    {
+        let beat = beat.clone();
+        std::thread::spawn(move || loop {
+            std::thread::sleep(std::time::Duration::from_millis(500));
+            if beat.lock().unwrap().elapsed() > std::time::Duration::from_secs(40) {
+                std::process::exit(3);
+            }
+        });
+    }
     for (i, (case, rank)) in cases.iter().enumerate() {
         if i % nshards != shard {
             continue;
         }
+        *beat.lock().unwrap() = std::time::Instant::now();
         writeln!(out, "{}", json!({"t": "at", "i": i})).unwrap();
         out.flush().unwrap();
         let st = explore(ctx, case, *rank);
